@@ -4,7 +4,7 @@ from fractions import Fraction
 
 import numpy as np
 
-from harness import gen
+from harness import gen, buffers
 from harness.core import SubCheck, Violation
 from harness.oracle.viterbi_ref import ExactProblem
 
@@ -120,6 +120,11 @@ def execute(case, t):
             raise RuntimeError("harness bug: dtype conversion of the table is not exact")
     cost_arg = _apply_layout(cost_arg, layout)
     beta_arg = np.array(beta, dtype=np.float64) if np.ndim(beta) else float(beta)
+    if case.get("reuse_buffers") and layout in ("C", "F"):
+        # the same array objects as in earlier calls of this process, refilled in place (what a sweep does)
+        cost_arg = buffers.reuse("C01.cost", cost_arg)
+        if np.ndim(beta):
+            beta_arg = buffers.reuse("C01.beta", beta_arg)
     T, K = cost.shape
     try:
         labels, reported = _kernel()(cost_arg, beta_arg)
@@ -133,6 +138,8 @@ def execute(case, t):
         t.cls(f"layout_{layout}")
     if case.get("dtype"):
         t.cls(f"table_dtype_{case['dtype']}")
+    if case.get("reuse_buffers"):
+        t.cls("caller_buffers_reused")
     if T == 1:
         t.cls("T=1")
     if K == 1:
